@@ -315,6 +315,49 @@ Proof.
   - unfold dequeue. e4_fin HI Hok Hpc.
 Qed.
 
+(* ---- transient store read failures ------------------------------------------------------------------------------ *)
+(* the read of the region the thread would run next fails: before the locker the thread just finishes (it holds no
+   table entry that the invariant speaks of and owns no in-flight entry); the SaveMeta case is the pc move of a
+   metadata kind that [enter_exec] performs as well; at [PLocked] the thread gives its table entry back (release +
+   FIFO recheck) and finishes in the same step, as the granted waiter that gives up does *)
+Lemma e4_inv_resume_read_fail s t s' : e4_Inv s -> resume_read_fail s t = Some s' -> e4_Inv s'.
+Proof.
+  intros HI H. unfold resume_read_fail in H.
+  destruct (get_thread (threads s) t) as [th|] eqn:Hth; [|discriminate].
+  destruct (negb (Nat.eqb (t_gen th) (gen s))); [discriminate|].
+  pose proof (i_th _ HI _ _ Hth) as Hok.
+  cbv zeta in H. revert H.
+  destruct (t_pc th) eqn:Hpc; intros H; cbv beta iota in H; try discriminate.
+  - (* PRevTaken *) injection H as <-. e4_fin HI Hok Hpc.
+  - (* PIkTaken *) injection H as <-. e4_fin HI Hok Hpc.
+  - (* PIkLookup *)
+    destruct hit as [e|]; [discriminate|].
+    destruct (rq_kind (t_req th)) eqn:Ek; try discriminate.
+    + (* create without reference: the compilation reads account metadata *)
+      destruct (N.eqb (rq_ref (t_req th)) 0); [|discriminate]. injection H as <-. e4_fin HI Hok Hpc.
+    + (* SaveMeta goes on as if the transaction had been found *)
+      destruct (rq_target_tx (t_req th)); [|discriminate]. injection H as <-.
+      e4_up0 HI. apply e4_benign_ok.
+      * unfold e4_benign, e4_tx. e4_thr. rewrite Ek. right; right; right; right. split; [reflexivity|].
+        destruct (rq_dry (t_req th)); auto.
+      * eapply e4_no_own_pc; [exact Hok | rewrite Hpc; discriminate | rewrite Hpc; discriminate].
+      * e4_thr. destruct (rq_dry (t_req th)); discriminate.
+      * e4_thr. intros _. apply (k_pre _ _ _ Hok). rewrite Hpc; reflexivity.
+    + (* DeleteMetadata answers not-found *)
+      destruct (rq_target_tx (t_req th)); [|discriminate]. injection H as <-. e4_fin HI Hok Hpc.
+  - (* PRefTaken *) injection H as <-. e4_fin HI Hok Hpc.
+  - (* PRefLookup *)
+    destruct hit; [discriminate|].
+    destruct (rq_kind (t_req th)); try discriminate. injection H as <-. e4_fin HI Hok Hpc.
+  - (* PLocked: the balance read under the locks fails *)
+    destruct (needs_balance th); [|discriminate]. injection H as <-.
+    unfold unlock. cbn [of_state u_queue u_threads u_locks u_persisted u_last u_lasttx u_pending
+                        u_batch u_iks u_refs u_revs u_cs u_uid u_published].
+    destruct (recheck (v_queue s) (threads s) (filter (fun h => negb (Nat.eqb (fst (fst h)) t)) (v_locks s)))
+      as [[q' ths'] locks'] eqn:Hr.
+    eapply (e4_inv_unlock_fin s _ t th _ q' ths' locks' HI Hr Hth); try reflexivity; try reflexivity; rewrite Hpc; discriminate.
+Qed.
+
 Lemma e4_inv_step s a s' : e4_Inv s -> step s a = Some s' -> e4_Inv s'.
 Proof.
   intros HI H. destruct a; simpl in H.
@@ -325,6 +368,7 @@ Proof.
   - injection H as <-. now apply e4_inv_crash.
   - eapply e4_inv_cancel; eauto.
   - eapply e4_inv_resume_cancelled; eauto.
+  - eapply e4_inv_resume_read_fail; eauto.
 Qed.
 
 Lemma e4_inv_init : e4_Inv init.
